@@ -204,6 +204,17 @@ CHECKS['C04'] = dict(
          '(documented rayon behaviour).',
     design='§4 C04 (plan) and §10.3 (as built)')
 
+CHECKS['C05'] = dict(
+    technique='layout agreement of delegating join operators (T14: schema vs row order under swapped delegation), construction analysis of the NOT IN -> anti join '
+              'condition on the negated path, guard analysis of the EXISTS -> IN decorrelation (deciding conditions over MIR)',
+    text='Decides three structural necessary conditions of "rewrites and join algorithms preserve meaning": a join operator that delegates with swapped inputs '
+         'does not hand out the delegate\'s schema with rows in its own order; the anti join produced for NOT IN carries the IS NULL alternatives of both '
+         'operands; NOT EXISTS is never decorrelated to NOT IN. Each rule was written from a defect demonstrated on the pinned tree (wrong column values under '
+         'RIGHT JOIN, NOT IN / NOT EXISTS answers under NULLs), fires on the pre-repair commit and passes after the repairs.',
+    note='The property was listed as not applicable in the plan (plan equivalence is semantic); that stands for join-order independence and value agreement of '
+         'the join algorithms. Known limitation left as found: RIGHT JOIN whose left side is itself a join fails with an error (no silent wrong result).',
+    design='§10.3 C05 (as built) and §10.4')
+
 CHECKS['C03'] = dict(
     technique='gate/clause coverage table of the fast path (T8: every SelectStmt clause handed over, declined, or exempt), comparator fallback analysis over MIR '
               '(no "unknown pair = Equal"), sibling agreement of the MIN/MAX comparator with the row accumulator, COUNT(*) / COUNT(column) specification rule',
@@ -267,7 +278,6 @@ CHECKS['C24'] = dict(
 
 NOT_APPLICABLE = {
     'C01': 'Equality of result multisets with a reference engine is a value-level semantic equivalence over all queries and data; no structural necessary condition beyond those claimed under C06/C21/C24 exists and a static rule cannot stand in for an oracle.',
-    'C05': 'Rewrite/join-order invariance is semantic equivalence of plans; the decorrelation walkers are heuristic by design, so no completeness rule can be stated whose violation necessarily changes results.',
     'C07': 'Aggregate definitions on every multiset are numeric results; the only structural prerequisite (hash/equality coherence of group keys) is C21.',
     'C08': 'Sortedness, slice arithmetic and distinctness are properties of runtime sequences; parallel-sort stability is claimed under C04.',
     'C17': 'Ordered-multimap behaviour and well-formedness of the B+tree depend on fill levels and key sizes at run time (splits, merges, borrows); a static shape rule would not be a necessary condition of any clause.',
